@@ -1,9 +1,11 @@
 (* C19 - The language server answers correctly from the latest text of the right document.
    Statements only; proofs in Proofs/LspProofs.v (generic) and Proofs/LspConcrete.v (the server
-   model the correspondence runs against lsp.Handle). Navigation correctness (hover / definition at
-   every position of every generated script) is judged on every run against the independent
-   traversal of Spec/Names.v (Corr/Judge.nav_ok); the hover model itself is proved panic-free (C18). *)
+   model the correspondence runs against lsp.Handle), Proofs/NavHover.v, NavRes.v, NavAnswer.v
+   (what hover and go-to-definition answer at a position, against Spec/Navigation.v). Navigation is
+   also judged on every run, at every position of every generated script, against a third,
+   independent traversal (Corr/Judge.nav_ok). *)
 From NS Require Import Base DocStore LspProofs Judge LspConcrete.
+From NS Require Import Navigation CheckNoPanic NavHover NavRes NavAnswer Lexer Parser.
 
 (* for every request history over any number of documents - any interleaving of open, change,
    hover, definition and symbol requests - every response and every published diagnostic set of
@@ -24,7 +26,36 @@ Proof. exact docstore_refinement_initial. Qed.
 Theorem C19_server_refines_spec : forall texts h, lsp_impl texts [] h = lsp_spec texts [] h.
 Proof. exact lsp_refinement_initial. Qed.
 
+(* Second sentence of the property. Spec/Navigation.v lists the *targets* of a script - every use of
+   a variable, with the declaration it refers to (the first declaration of that name among those
+   that precede the use: a variable is not in scope in its own origin), and every called function
+   name, with the context of the call - by a traversal that knows nothing of the checker or of the
+   hover code. For every tree without nil nodes where each node's range encloses the ranges below
+   it (what a parse without errors produces; evaluated on every document by the correspondence),
+   every analysis of it and every position: if the position lies in exactly one target, the hover
+   response is that variable with the type of its declaration / that built-in function with its
+   signature (nothing when the name resolves to nothing), and the definition response is the exact
+   range of the name in that declaration. *)
+Theorem C19_navigation_exact : forall p pd perm cs txt q t,
+  tree_safe p = true -> nested p = true -> check_program p pd perm = Ok cs -> at_pos p q = [t] ->
+  handle_hover (mkdoc txt p cs) q = Ok (hover_of t) /\ handle_definition (mkdoc txt p cs) q = Ok (definition_of t).
+Proof. exact navigation_exact. Qed.
+
+(* "other positions yield nothing": no assumption on the ranges *)
+Theorem C19_navigation_nothing_elsewhere : forall p pd perm cs txt q,
+  tree_safe p = true -> check_program p pd perm = Ok cs -> at_pos p q = [] ->
+  handle_hover (mkdoc txt p cs) q = Ok None /\ handle_definition (mkdoc txt p cs) q = Ok None.
+Proof. exact navigation_nothing. Qed.
+
+(* the two maps the server consults hold exactly the resolutions of the specification's targets *)
+Theorem C19_resolutions_exact : forall p pd perm cs, check_program p pd perm = Ok cs ->
+  cs_varres cs = rev (var_entries (targets p)) /\ cs_fnres cs = rev (fn_entries (targets p)).
+Proof. exact check_program_resolutions. Qed.
+
 Print Assumptions C19_docstore_refinement.
+Print Assumptions C19_navigation_exact.
+Print Assumptions C19_navigation_nothing_elsewhere.
+Print Assumptions C19_resolutions_exact.
 Print Assumptions C19_server_refines_spec.
 
 Example C19_example :
@@ -35,3 +66,23 @@ Example C19_example :
      LPublished "a" [(mkdiag (R 0 14 0 16) (DUnusedVar "x"), OSevWarning)];
      LSymbols [mksymbol "x" "number" (R 0 14 0 16)]; LSymbols []].
 Proof. reflexivity. Qed.
+
+(* non-vacuity of C19_navigation_exact on a parsed script: line 1 declares $m from balance(...),
+   line 3 uses it; position (3,6) lies in the use, (1,17) in the callee name, (3,2) in neither *)
+Example C19_navigation_example :
+  let nl := String (Coq.Strings.Ascii.ascii_of_nat 10) EmptyString in
+  match parse_text (cp ("vars {" ++ nl ++ "  monetary $m = balance(@a, USD/2)" ++ nl ++ "}" ++ nl ++ "send $m (source=@a destination=@b)")) with
+  | Parsed p =>
+      tree_safe p = true /\ nested p = true /\
+      match check_default p [] with
+      | Ok cs =>
+          (exists d, at_pos p (mkpos 3 6) = [TVar (R 3 5 3 7) "m" (Some d)]
+                     /\ handle_hover (mkdoc [] p cs) (mkpos 3 6) = Ok (Some (AVarHover (R 3 5 3 7) "m" "monetary"))
+                     /\ handle_definition (mkdoc [] p cs) (mkpos 3 6) = Ok (Some (R 1 11 1 13)))
+          /\ at_pos p (mkpos 1 17) = [TFn (R 1 16 1 23) "balance" CtxOrigin]
+          /\ at_pos p (mkpos 3 2) = []
+      | _ => False
+      end
+  | _ => False
+  end.
+Proof. vm_compute. repeat split; try reflexivity. eexists. repeat split; reflexivity. Qed.
